@@ -9,6 +9,5 @@ CONSTANTS
 INIT Init
 NEXT NextMC
 VIEW View
-INVARIANTS TypeOK MatchExact TableOK WildcardSparesApex WhitelistWins WholeLabels
-PROPERTIES SetEffective
+INVARIANTS TypeOK MatchExact
 CHECK_DEADLOCK FALSE
